@@ -123,6 +123,24 @@ def links_ok(dump):
     return True
 
 
+def tails_ok(dump):
+    """every child chain's head records its last sibling as tail ('type:start:len:next:prev:child:tail:mate')"""
+    try:
+        T = [None] + [[int(x) for x in t.split(":")] for t in dump.split()[1:]]
+    except ValueError:
+        return False
+    for i in range(1, len(T)):
+        c = T[i][5]
+        if not c: continue
+        if not 0 < c < len(T): return False
+        last, steps = c, 0
+        while T[last][3] and steps <= len(T):
+            if not 0 < T[last][3] < len(T): return False
+            last = T[last][3]; steps += 1
+        if steps > len(T) or T[c][6] != last: return False
+    return True
+
+
 def surgery_compare(drv, har, scripts):
     """-> [(script cut before the first undefined operation, model heap, implementation heap)]"""
     model = common.run_lines_par(drv, scripts, args=["surgery"], timeout=600)
@@ -164,6 +182,9 @@ def surgery_part(rep, tier, rng, drv, bad, enums=None):
             vd = verdict[(exp, impl)][1]
             bad.append((b"", cut, "surgery-heap-incoherent", "an operation script after which the model's heap is coherent leaves token.c with a heap the verified checkers reject "
                         "(doubly-linked=%s mates-symmetric=%s source-order-and-spans=%s): implementation heap %s" % (vd[0], vd[1], vd[2], impl[:300])))
+        elif exp != impl and tails_ok(exp) and not tails_ok(impl):
+            bad.append((b"", cut, "surgery-tail-stale", "an operation script after which every first child records its last sibling as tail in the model leaves token.c with a "
+                        "child chain whose head's tail is not its last token: implementation heap %s" % impl[:300]))
         elif exp != impl:
             bad.append((b"", cut, "surgery-model-vs-impl", "token.c and coq/model/TokenHeap.v differ on an operation script: model %s / implementation %s" % (exp[:200], impl[:200])))
     rep.cov["surgery_scripts"] = len(scripts)
@@ -365,7 +386,7 @@ def run(rep, tier, seed):
     for d, c, kind, what in bad:
         if kind in seen: continue
         seen.add(kind)
-        if kind in ("surgery-links-broken", "matcher-links-broken", "surgery-heap-incoherent"):
+        if kind in ("surgery-links-broken", "matcher-links-broken", "surgery-heap-incoherent", "surgery-tail-stale"):
             rep.violation(kind, what, dict(script=c, matcher=kind.startswith("matcher"), no_failing_input=False, replay_cmd="python3 check.py C15 --replay <this file>")); continue
         if kind in ("matcher-model-vs-impl", "matcher-model-stuck"):
             rep.violation(kind, what, dict(script=c, matcher=True, no_failing_input=True,
@@ -407,6 +428,8 @@ def replay(rep, r):
             print("verified checkers (doubly linked, mates symmetric, source order): model %s implementation %s" % (ve, vi))
             if ve == "111" and vi != "111":
                 rep.violation("surgery-heap-incoherent", "token.c leaves a heap the verified checkers reject", r); return
+        if e != i and not i.startswith("CRASH") and not e.startswith("MODEL") and tails_ok(e) and not tails_ok(i):
+            rep.violation("surgery-tail-stale", "token.c leaves a child chain whose head's tail is not its last token", r); return
         if e != i:
             rep.violation("surgery-model-vs-impl", "model and token.c differ", dict(r, no_failing_input=True))
         return
